@@ -599,6 +599,36 @@ def normalize(e):
         except (KeyError, IndexError):
             pass
         return e
+    # a boolean-valued `if a { b } else { c }` over pure operands is `(a && b) || (!a && c)`
+    if k == 'If' and e.get('ty') == 'bool' and len(e.get('ch', [])) == 3 and \
+            peel(e['ch'][0]).get('k') != 'LetExpr':
+        def pure(x):
+            return not any(n.get('k') in ('Assign', 'AssignOp', 'Closure', 'Ret', 'Break', 'Continue', 'Loop',
+                                          'While', 'For', 'Let', 'LetExpr') or
+                           (n.get('k') == 'Match' and 'TryDesugar' in n.get('src', '')) for n in walk(x))
+
+        def single(x):
+            x = peel(x)
+            while x.get('k') == 'Block' and not x.get('stmts') and 'expr' in x:
+                x = peel(x['expr'])
+            return x if x.get('k') != 'Block' else None
+        a, b, c = e['ch'][0], single(e['ch'][1]), single(e['ch'][2])
+        if b is not None and c is not None and pure(a) and pure(b) and pure(c) and \
+                not (b.get('k') == 'Lit' and c.get('k') == 'Lit'):
+            def lit(x):
+                return x.get('v') if x.get('k') == 'Lit' and x.get('v') in ('true', 'false') else None
+
+            def bop(op, x, y):
+                return {'k': 'Binary', 'op': op, 'ch': [x, y], 'ty': 'bool', 'sp': e.get('sp')}
+            nota = {'k': 'Unary', 'op': 'Not', 'ch': [a], 'ty': 'bool', 'sp': e.get('sp')}
+            if lit(b) == 'true':
+                return bop('Or', a, c)
+            if lit(c) == 'true':
+                return bop('Or', nota, b)
+            if lit(b) == 'false':
+                return bop('And', nota, c)
+            if lit(c) == 'false':
+                return bop('And', a, b)
     # `match a.cmp(&b) { Less => X, Equal => Y, Greater => Z }` on integers is an if-chain on
     # `a < b`, `a == b`, `a > b` (arms in order; the last arm takes what is left)
     if k == 'Match' and e.get('src') in (None, 'Normal'):
